@@ -39,6 +39,7 @@ type txSpec struct {
 	Postings  []postingSpec     `json:"postings"`
 	Metadata  map[string]string `json:"metadata"`  // null = nil map
 	Timestamp string            `json:"timestamp"` // as sent to the API; goes through ledger.ParseTime
+	Now       bool              `json:"now"`       // no timestamp sent: the commander takes ledger.Now() (Timestamp says which instant)
 	Reference string            `json:"reference"`
 	ID        string            `json:"id"`
 	Reverted  bool              `json:"reverted"`
@@ -74,8 +75,25 @@ func bigOf(s string) *big.Int {
 
 type rejected struct{ why string }
 
+// a time made the way ledger.Now() makes one: time.Now().UTC().Round(DatePrecision), at the given instant
+func nowAt(text string) (ledger.Time, error) {
+	t, err := time.Parse(time.RFC3339Nano, text)
+	if err != nil {
+		return ledger.Time{}, err
+	}
+	return ledger.Time{Time: t.UTC().Round(ledger.DatePrecision)}, nil
+}
+
 func buildTx(s *txSpec) (*ledger.Transaction, *rejected) {
-	ts, err := ledger.ParseTime(s.Timestamp)
+	var (
+		ts  ledger.Time
+		err error
+	)
+	if s.Now {
+		ts, err = nowAt(s.Timestamp)
+	} else {
+		ts, err = ledger.ParseTime(s.Timestamp)
+	}
 	if err != nil {
 		return nil, &rejected{"timestamp"}
 	}
@@ -98,11 +116,10 @@ func buildTx(s *txSpec) (*ledger.Transaction, *rejected) {
 }
 
 func buildLog(s logSpec) (*ledger.Log, *rejected) {
-	at, err := ledger.ParseTime(s.Date)
+	at, err := nowAt(s.Date) // the commander dates logs with ledger.Now()
 	if err != nil {
 		return nil, &rejected{"date"}
 	}
-	at = at.UTC()
 	var l *ledger.Log
 	switch s.Kind {
 	case "NEW":
@@ -1209,11 +1226,14 @@ func genDate(g *vx.Rng) string {
 	case 2:
 		return "1970-01-01T00:00:00Z"
 	}
-	return fmt.Sprintf("%04d-%02d-%02dT%02d:%02d:%02d.%06dZ", 1990+g.Intn(60), 1+g.Intn(12), 1+g.Intn(28), g.Intn(24), g.Intn(60), g.Intn(60), g.Intn(1000000))
+	return fmt.Sprintf("%04d-%02d-%02dT%02d:%02d:%02d.%09dZ", 1990+g.Intn(60), 1+g.Intn(12), 1+g.Intn(28), g.Intn(24), g.Intn(60), g.Intn(60), g.Intn(1000000000))
 }
 
 func genTx(g *vx.Rng) *txSpec {
 	t := &txSpec{Metadata: genMeta(g), Timestamp: genTimestamp(g), ID: genID(g, true), Reverted: g.Chance(1, 8)}
+	if g.Chance(1, 4) {
+		t.Timestamp, t.Now = genDate(g), true
+	}
 	n := 1 + g.Intn(3)
 	if g.Chance(1, 20) {
 		n = 0
